@@ -2803,6 +2803,6 @@ RULES = {
     "C15": [rule_cxx_header, rule_ndjson_header, rule_no_static_locals_from_arguments],
     "C02": [rule_ndjson_lookahead, rule_ndjson_field_omission],
     "C04": [rule_cxx_header, rule_output_order, rule_ndjson_header, rule_no_static_locals_from_arguments],
-    "C03": [rule_varint_decoders_agree, rule_output_order, rule_reader_overwrites, rule_integer_dispatch, rule_shift_in_destination_type, rule_zigzag_width, rule_varint_constants],
+    "C03": [rule_blocks, rule_ndjson_lookahead, rule_varint_decoders_agree, rule_output_order, rule_reader_overwrites, rule_integer_dispatch, rule_shift_in_destination_type, rule_zigzag_width, rule_varint_constants],
     "C17": [rule_reader_overwrites, rule_blocks, rule_trivial_trait_set, rule_output_order, rule_pointer_offset_units, rule_coded_stream_bounds],
 }
